@@ -35,6 +35,7 @@ type c18Scenario struct {
 	Args    []string
 	Targets []string          // files that may be rewritten
 	Links   map[string]string // symbolic links created in the scratch directory: name -> target
+	Broken  string            // several files: the one that does not parse (all others must be rewritten whatever the number of CPUs)
 	New     map[string]string // expected new contents (target -> bytes); absent = must stay old
 	newVia  map[string]string // new contents as read through each link name
 }
@@ -437,6 +438,8 @@ func c18Scenarios(e *core.Env) []c18Scenario {
 		{Name: "format-unparseable", Files: map[string]string{"f.knut": broken}, Args: []string{"format", "f.knut"}, Targets: []string{"f.knut"}},
 		{Name: "format-three-files-middle-broken", Files: map[string]string{"a.knut": c18Unformatted(700), "b.knut": broken, "c.knut": c18Unformatted(900)},
 			Args: []string{"format", "a.knut", "b.knut", "c.knut"}, Targets: []string{"a.knut", "b.knut", "c.knut"}},
+		{Name: "format-six-files-first-broken", Files: map[string]string{"a.knut": broken, "b.knut": c18Unformatted(300), "c.knut": c18Unformatted(400), "d.knut": c18Unformatted(500), "e.knut": c18Unformatted(600), "f.knut": c18Unformatted(700)},
+			Args: []string{"format", "a.knut", "b.knut", "c.knut", "d.knut", "e.knut", "f.knut"}, Targets: []string{"a.knut", "b.knut", "c.knut", "d.knut", "e.knut", "f.knut"}, Broken: "a.knut"},
 		{Name: "format-through-symlink", Files: map[string]string{"real.knut": c18Unformatted(900)}, Links: map[string]string{"link.knut": "real.knut"},
 			Args: []string{"format", "link.knut"}, Targets: []string{"real.knut"}},
 		{Name: "infer-inplace-through-symlink", Files: map[string]string{"train.knut": train, "real.knut": target + c18Unformatted(3000)}, Links: map[string]string{"link.knut": "real.knut"},
@@ -470,6 +473,31 @@ func c18Run(e *core.Env) {
 				e.Violation("C18:unparseable-file-rewritten", "a file that does not parse was modified by format", c18Case{sc.Name, "none"}, nil)
 			case sc.Name == "format-three-files-middle-broken" && (sc.New["a.knut"] == "" || sc.New["c.knut"] == "" || sc.New["b.knut"] != ""):
 				e.Violation("C18:failure-on-one-file-affects-others", fmt.Sprintf("a.knut rewritten=%v, b.knut rewritten=%v, c.knut rewritten=%v (want true,false,true)", sc.New["a.knut"] != "", sc.New["b.knut"] != "", sc.New["c.knut"] != ""), c18Case{sc.Name, "none"}, nil)
+			case sc.Broken != "":
+				// a failure on one file must not prevent the others, whatever the number of workers
+				for _, procs := range []string{"1", "2", "3", "16"} {
+					c18Procs = procs
+					c18RunFault(dir, &sc, nil)
+					var notRewritten []string
+					for _, t := range sc.Targets {
+						b, _ := os.ReadFile(filepath.Join(dir, t))
+						if t == sc.Broken {
+							if string(b) != sc.Files[t] {
+								e.Violation("C18:unparseable-file-rewritten", t+" does not parse but was modified (GOMAXPROCS="+procs+")", c18Case{sc.Name, "none:p" + procs}, nil)
+							}
+							continue
+						}
+						if string(b) == sc.Files[t] {
+							notRewritten = append(notRewritten, t)
+						}
+					}
+					e.Count("evaluations")
+					if len(notRewritten) > 0 {
+						e.Violation("C18:failure-on-one-file-affects-others", fmt.Sprintf("GOMAXPROCS=%s: %s does not parse, and %v were not formatted although nothing is wrong with them", procs, sc.Broken, notRewritten), c18Case{sc.Name, "none:p" + procs}, nil)
+						break
+					}
+				}
+				c18Procs = "2"
 			case strings.HasPrefix(sc.Name, "format-") && sc.Name != "format-unparseable" && len(sc.New) == 0, sc.Name == "infer-inplace" && sc.New["target.knut"] == "":
 				e.EngineError("%s: the clean run does not rewrite the file", sc.Name)
 			}
